@@ -97,9 +97,10 @@ def run(m, rep, tier):
             a6.violation(name, 'array code calls %s directly at %s: the buffer lifetime must go through the shared pointer' % (direct[0].callee, direct[0].loc()), floc(m, f), {})
         else:
             a6.ok(name, 'no direct allocator/free call')
+    fmod = m.focus('array')          # private helpers (a shared "refer to" worker) inlined into the public functions
     for name, src, dst in (('cstl_array_slice', '$0', '$3'), ('cstl_array_unslice', '$0', '$1')):
-        f = m.pfn(name)
-        if f is None:
+        f = fmod.fn(name)
+        if f is None or f.decl:
             a6.undecided(name + ':share', 'not in the model')
             continue
         shares = list(f.calls('cstl_shared_ptr_share'))
@@ -118,6 +119,11 @@ def run(m, rep, tier):
             a6.violation(name + ':share', '; '.join(bad), floc(m, f), {})
         else:
             a6.ok(name + ':share', 'shares source -> result under a != s')
+
+    # ---- A8: the NDEBUG build does what the assertion build does ---------------------------------
+    from .util import check_assert_effects
+    _ae = rep.rule('A8', 'every store / effectful call made with assertions enabled is also made by the NDEBUG build (no work inside assert())', floor=1)
+    check_assert_effects(m, _ae, ('array.c', 'array.h'))
 
 
 def check_coupled(m, f, k, d, rule):
